@@ -1,2 +1,4 @@
 import OsmoVerif.Audit
 import OsmoVerif.Props.C12
+import OsmoVerif.Props.C13
+import OsmoVerif.Props.C14
